@@ -53,6 +53,8 @@ func runSelftest(c *Ctx, verifDir string) {
 	add(filepath.Join(verifDir, "neutral_pool4", "*", "*.patch"), "pool")
 	// round-3 seeds with their bug repaired, and renamed reference functions (DESIGN §8.16)
 	add(filepath.Join(verifDir, "neutral_pool5", "*", "*.patch"), "pool")
+	// additions, moves and renames (DESIGN §8.17)
+	add(filepath.Join(verifDir, "neutral_pool6", "*", "*.patch"), "pool")
 	if len(variants) == 0 {
 		return
 	}
